@@ -32,14 +32,17 @@ type c09Spec struct {
 	funcs   []string          // its "methods" (package-level functions)
 	extra   []string          // unexported methods that are entry points from other types
 	exclude map[string]string // methods outside the documented concurrent surface -> why
+	// fields whose referent is not safe for concurrent use and which the type exists to
+	// serialise: a method call through such a field is also a write of the pseudo-location "f->"
+	serialises []string
 }
 
 var c09Specs = []c09Spec{
 	{dir: "zapcore", name: "lazyWithCore"},
 	{dir: "zapcore", name: "sampler"},
 	{dir: "zapcore", name: "counter"},
-	{dir: "zapcore", name: "BufferedWriteSyncer"},
-	{dir: "zapcore", name: "lockedWriteSyncer"},
+	{dir: "zapcore", name: "BufferedWriteSyncer", serialises: []string{"WS", "writer"}},
+	{dir: "zapcore", name: "lockedWriteSyncer", serialises: []string{"ws"}},
 	{dir: "zapcore", name: "hooked"},
 	{dir: "zapcore", name: "multiCore"},
 	{dir: "zapcore", name: "levelFilterCore"},
@@ -83,7 +86,8 @@ type fieldInfo struct {
 	name    string
 	kind    int
 	id      int // location (plain, atomic, the pointer of patomic, the chan variable) / lock / once
-	id2     int // pointee of patomic, channel of chan
+	id2     int // pointee of patomic, channel of chan, referent of a serialised field
+	serial  bool
 	methods []string
 }
 
@@ -298,6 +302,12 @@ func (x *c09x) addField(name string, kind int, methods []string) {
 		fi.id2 = x.ids.alloc(q + "(chan)")
 	default:
 		fi.id = x.ids.alloc(q)
+		for _, sname := range x.spec.serialises {
+			if sname == name {
+				fi.id2 = x.ids.alloc(q + "->")
+				fi.serial = true
+			}
+		}
 	}
 	x.fields[name] = fi
 	x.forder = append(x.forder, name)
@@ -566,6 +576,9 @@ func (x *c09x) call(c *ast.CallExpr) []act {
 				x.errf("unsupported method %s on lock field %s", m, f.name)
 				return nil
 			default:
+				if f.serial {
+					return append(args, act{k: 'a', id: f.id}, act{k: 'a', id: f.id2, w: true})
+				}
 				return append(args, act{k: 'a', id: f.id})
 			}
 		}
